@@ -53,6 +53,18 @@ theorem cut_getElem? (MIN MAX : Int) (xs : List (Option Int)) (bins : List Int) 
   · simp only [hc, if_false, Option.some.injEq] at h
     subst h; simp
 
+/-- **position independent**: equal elements get equal outcomes wherever they stand, and the outcome
+of one element does not depend on the other elements of the series (the same element in another
+series with the same bins and labels gets the same outcome) -/
+theorem cut_pointwise (MIN MAX : Int) (xs ys : List (Option Int)) (bins : List Int)
+    (labels : List L) (right ab : Bool) (out out' : List (Item L))
+    (h : vcut MIN MAX xs bins labels right ab = some out)
+    (h' : vcut MIN MAX ys bins labels right ab = some out')
+    (i j : Nat) (x : Option Int) (hx : xs[i]? = some x) (hy : ys[j]? = some x) :
+    out[i]? = out'[j]? := by
+  rw [cut_getElem? MIN MAX xs bins labels right ab out h i,
+    cut_getElem? MIN MAX ys bins labels right ab out' h' j, hx, hy]
+
 /-- **nulls get the null label**, and only nulls do -/
 theorem cut_null (MIN MAX : Int) (xs : List (Option Int)) (bins : List Int) (labels : List L)
     (right ab : Bool) (out : List (Item L)) (h : vcut MIN MAX xs bins labels right ab = some out)
